@@ -178,6 +178,19 @@ fn unary(v: u64) -> Vec<Divergence> {
     if back != b || back_rev != b {
         d.push(Divergence::new("collect-from-squares-wrong", format!("{v:#018x}")));
     }
+    // collection is set union whatever the length of the sequence: every member three times over,
+    // preceded by 70 copies of its first member (more than 64 items in total)
+    if !mem.is_empty() {
+        let long: Vec<u8> = std::iter::repeat(mem[0]).take(70).chain(mem.iter().copied()).chain(mem.iter().rev().copied()).chain(mem.iter().copied()).collect();
+        let got: BitBoard = long.iter().map(|&p| pos(p)).collect();
+        if got != b {
+            d.push(Divergence::new("collect-from-long-sequence-wrong", format!("{v:#018x}: collecting {} squares (with repeats) gives {:#018x}", long.len(), got.to_u64())));
+        }
+        let got2: BitBoard = long.iter().map(|&p| BitBoard::from_pos(pos(p))).collect();
+        if got2 != b {
+            d.push(Divergence::new("collect-from-long-sequence-wrong", format!("{v:#018x}: collecting {} single-square boards gives {:#018x}", long.len(), got2.to_u64())));
+        }
+    }
     let singles: BitBoard = mem.iter().map(|&p| BitBoard::from_pos(pos(p))).collect();
     if singles != b {
         d.push(Divergence::new("collect-from-boards-wrong", format!("{v:#018x}")));
@@ -232,6 +245,21 @@ fn iterator_machine(v: u64, ns: &[usize]) -> (u64, Vec<Divergence>) {
         }
     }
     (evals, d)
+}
+
+/// skip counts around every power of two (truncating casts, shifts that wrap) and the extremes
+fn big_ns() -> Vec<usize> {
+    let mut v = vec![127usize, 128, 255, 256, 257, usize::MAX, usize::MAX - 1, usize::MAX - 63, usize::MAX - 64];
+    for sh in [8u32, 16, 31, 32, 33, 48, 63] {
+        let base = 1usize << sh;
+        for off in [0usize, 1, 2, 7, 63] {
+            v.push(base.wrapping_add(off));
+            v.push(base.wrapping_sub(off + 1));
+        }
+    }
+    v.sort();
+    v.dedup();
+    v
 }
 
 fn binary(a: u64, b: u64) -> Option<Divergence> {
@@ -317,9 +345,7 @@ pub fn run_c18(args: &Args) -> i32 {
     }
     // iterator state machines
     let mut ns: Vec<usize> = (0..=66).collect();
-    ns.push(usize::MAX);
-    ns.push(usize::MAX - 63);
-    ns.push(128);
+    ns.extend(big_ns());
     let res: Vec<(u64, Vec<Divergence>)> = all.par_iter().map(|&v| iterator_machine(v, &ns)).collect();
     for (v, (e, dd)) in all.iter().zip(&res) {
         evals += e;
@@ -382,7 +408,7 @@ pub fn run_c18(args: &Args) -> i32 {
         json!({
             "evaluations": evals,
             "distinct_nontrivial": all.len() as u64 - 1,
-            "rule": "family = {empty, full, 64 singletons, 2016 pairs, 8 files, 8 ranks, complements of all of these} plus all 2^16 subsets of the 16-square window a1 b1 h1 a2 b2 h2 a8 b8 h8 g7 d4 e4 d5 e5 c3 f6 (every edge type). Every unary operation and every per-square operation (x 64 squares) on every member; the iterator explored from every suffix state of every member with next, size_hint and nth(n) for n in 0..=66, 128, usize::MAX-63, usize::MAX (result and the state left behind compared with skipping n elements); all binary operators and their assign forms on small x small (thorough: small x everything). Non-trivial = distinct non-empty boards.",
+            "rule": "family = {empty, full, 64 singletons, 2016 pairs, 8 files, 8 ranks, complements of all of these} plus all 2^16 subsets of the 16-square window a1 b1 h1 a2 b2 h2 a8 b8 h8 g7 d4 e4 d5 e5 c3 f6 (every edge type). Every unary operation and every per-square operation (x 64 squares) on every member; the iterator explored from every suffix state of every member with next, size_hint and nth(n) for n in 0..=66 and ~70 values around every power of two up to 2^63 and usize::MAX (result and the state left behind compared with skipping n elements); all binary operators and their assign forms on small x small (thorough: small x everything). Non-trivial = distinct non-empty boards.",
             "family_size": all.len(),
             "bmi2_path": cfg!(target_feature = "bmi2"),
             "same_check_in_build_without_bmi2": other_flavour,
@@ -401,7 +427,7 @@ pub fn replay_c18(case: &serde_json::Value) -> Vec<Divergence> {
         Some("bitboard-unary") => unary(parse("board")),
         Some("bitboard-iterator") => {
             let mut ns: Vec<usize> = (0..=66).collect();
-            ns.extend([usize::MAX, usize::MAX - 63, 128]);
+            ns.extend(big_ns());
             iterator_machine(parse("board"), &ns).1
         }
         Some("bitboard-binary") => binary(parse("a"), parse("b")).into_iter().collect(),
